@@ -13,8 +13,8 @@ Definition table_pinned : table := {|
   t_pkg_methods := lst DContents true false; t_table_rows := lst DGiven true false;
   t_unmasked := lst DContents true false; t_sidebar_inherited := lst DInherited true false;
   t_sidebar_direct := lst DContents true false; t_modsummary_sub := lst DContents true false;
-  t_modindex_roots := lst DRootobjects false false;     (* ModuleIndexPage.stuff: no isVisible test *)
-  t_index_roots := lst DRootobjects false false;        (* IndexPage.roots: no isVisible test *)
+  t_modindex_roots := lst DRootobjects true false;      (* ModuleIndexPage.stuff: `if o.isVisible` since commit 989b1ee *)
+  t_index_roots := lst DRootobjects true false;         (* IndexPage.roots: `if not o.isVisible: continue` since 989b1ee *)
   t_rootclasses := lst DAllobjects true true; t_subclasses_from := lst DSubclasses true true;
   t_nameindex := lst DAllobjects true false; t_undocced := lst DAllobjects true false;
   t_alldocs := lst DAllobjects true false; t_corpus := lst DAllobjects true false;
@@ -38,6 +38,23 @@ Definition table_before_fd84d91 : table := {|
   t_inventory := t_inventory table_pinned; t_writer := t_writer table_pinned;
   t_assemble := t_assemble table_pinned; t_overriding := t_overriding table_pinned;
   t_taglink_drops_hidden := false;
+  t_css_private := true; t_sidebar_private := true; t_modsummary_private := true; t_search_privacy := true;
+  t_row_uses_css := true; t_child_uses_css := true |}.
+
+(* summary.ModuleIndexPage.stuff / IndexPage.roots before commit 989b1ee: system.rootobjects without an isVisible test *)
+Definition table_before_989b1ee : table := {|
+  t_children := t_children table_pinned; t_methods := t_methods table_pinned;
+  t_pkg_children := t_pkg_children table_pinned; t_pkg_init := t_pkg_init table_pinned;
+  t_pkg_methods := t_pkg_methods table_pinned; t_table_rows := t_table_rows table_pinned;
+  t_unmasked := t_unmasked table_pinned; t_sidebar_inherited := t_sidebar_inherited table_pinned;
+  t_sidebar_direct := t_sidebar_direct table_pinned; t_modsummary_sub := t_modsummary_sub table_pinned;
+  t_modindex_roots := lst DRootobjects false false; t_index_roots := lst DRootobjects false false;
+  t_rootclasses := t_rootclasses table_pinned; t_subclasses_from := t_subclasses_from table_pinned;
+  t_nameindex := t_nameindex table_pinned; t_undocced := t_undocced table_pinned;
+  t_alldocs := t_alldocs table_pinned; t_corpus := t_corpus table_pinned;
+  t_inventory := t_inventory table_pinned; t_writer := t_writer table_pinned;
+  t_assemble := t_assemble table_pinned; t_overriding := t_overriding table_pinned;
+  t_taglink_drops_hidden := true;
   t_css_private := true; t_sidebar_private := true; t_modsummary_private := true; t_search_privacy := true;
   t_row_uses_css := true; t_child_uses_css := true |}.
 
